@@ -139,6 +139,27 @@ theorem slotsOk_answers {A : Subm → Cpl → Prop} :
         rw [List.filterMap_cons_some hsl]
         exact ⟨h.2.1 c hsl, ih _ _ h.2.2 hall.2⟩
 
+theorem answerOne_err (d : Dialect) (lo hi : Db) (s : Subm) : AnswerOne d lo hi s .err := by
+  cases s <;> simp [AnswerOne]
+
+/-- a request coroutine resumed on its first failed child: the children that have not completed count as failed -/
+theorem slotsOk_answers_err {A : Subm → Cpl → Prop} (herr : ∀ s, A s .err) :
+    ∀ (subs : List Subm) (b : Nat) (slots : List (Nat × Option Cpl)), SlotsOk A b subs slots →
+      Answers' A subs (slots.map fun s => s.2.getD .err) := by
+  intro subs
+  induction subs with
+  | nil => intro b slots h; cases slots <;> simp_all [SlotsOk, Answers']
+  | cons s ss ih =>
+    intro b slots h
+    cases slots with
+    | nil => simp [SlotsOk] at h
+    | cons sl sls =>
+      simp only [List.map_cons]
+      refine ⟨?_, ih _ _ h.2.2⟩
+      cases hsl : sl.2 with
+      | none => exact herr s
+      | some c => exact h.2.1 c hsl
+
 /-! ### what a yield dispatches -/
 
 def dispOf (tid : String) : Nat → List Subm → List (SubId × Subm)
@@ -557,7 +578,11 @@ theorem resume_tid (th th' : Thread) (t : Time) (h : th.resume? t = some th') : 
     · split at h
       · injection h with h; rw [← h]
       · cases h
-    · cases h
+    · split at h
+      · split at h
+        · injection h with h; rw [← h]
+        · cases h
+      · cases h
 
 theorem resume_runnable {d : Dialect} {db : Db} {P : List (SubId × Subm)} {Q : List (SubId × Cpl)} {clk t : Time} {th th' : Thread}
     (h : TInv d db P Q clk th) (hc : clk ≤ t) (hr : th.resume? t = some th') : Runnable d db P Q t th' := by
@@ -589,7 +614,31 @@ theorem resume_runnable {d : Dialect} {db : Db} {P : List (SubId × Subm)} {Q : 
           cases hdp with
           | yield _ _ _ hk => exact (hk t _).mono (by unfold maxDepth; omega)
       · cases hr
-    · cases hr
+    · split at hr
+      · split at hr
+        · rename_i subs' k' hco
+          injection hr with hr
+          subst hr
+          rw [h1] at hco
+          injection hco with e1 e2
+          subst e1; subst e2
+          refine ⟨⟨hs.np, hs.ak, hs.rs, hs.dp, hs.qk⟩, ?_, ?_, fun e he ht => (h9 e he ht).2, fun e he ht => (h10 e he ht).2, ?_, ?_⟩
+          · cases h3 with
+            | yield _ _ _ _ hk =>
+              exact hk t _ db (Int.le_trans h6 hc) h5 (answers'_eq d lo db _ _
+                (slotsOk_answers_err (fun s => answerOne_err d lo db s) subs base th.slots h8))
+          · cases h4 with
+            | yield _ _ _ hk => exact hk t _
+          · intro hb
+            have := hrs hb
+            rw [h1] at this
+            cases this with
+            | yield _ _ hk => exact hk t _
+          · rw [h1] at hdp
+            cases hdp with
+            | yield _ _ _ hk => exact (hk t _).mono (by unfold maxDepth; omega)
+        · cases hr
+      · cases hr
 
 /-! ### one tick -/
 
@@ -774,9 +823,6 @@ theorem answerOne_mono {d : Dialect} {lo hi hi' : Db} (hm : PromMono hi hi') {s 
   case store.store tx rs =>
     obtain ⟨db, db', h1, h2, h3, h4⟩ := h
     exact ⟨db, db', h1, h2, h3, h4.trans hm⟩
-
-theorem answerOne_err (d : Dialect) (lo hi : Db) (s : Subm) : AnswerOne d lo hi s .err := by
-  cases s <;> simp [AnswerOne]
 
 /-- the thread invariant across a step that may grow the database, drop pending submissions and queue completions
     that answer the pending submission of the same name -/
